@@ -226,7 +226,24 @@ func (P *Program) Key(fn *ssa.Function) string {
 }
 
 // Fn looks a function up by key; nil if absent.
-func (P *Program) Fn(key string) *ssa.Function { return P.Funcs[key] }
+func (P *Program) Fn(key string) *ssa.Function {
+	if f := P.Funcs[key]; f != nil {
+		return f
+	}
+	// the same method with the other receiver kind ((T).m <-> (*T).m)
+	if i := strings.Index(key, ".("); i >= 0 {
+		var alt string
+		if strings.HasPrefix(key[i+2:], "*") {
+			alt = key[:i+2] + key[i+3:]
+		} else {
+			alt = key[:i+2] + "*" + key[i+2:]
+		}
+		if f := P.Funcs[alt]; f != nil {
+			return f
+		}
+	}
+	return nil
+}
 
 func (P *Program) Pos(p token.Pos) string {
 	if !p.IsValid() {
